@@ -20,6 +20,7 @@ def S(pid, flags="", box=(), h=()):
 D, T, K = {"k": "D"}, {"k": "T"}, {"k": "K"}
 # other public ways to ask for a drain: supervisor.drain_children(), drain_and_wait(Some(1s)), drain_and_wait(None)
 # (the *_and_wait futures are polled once - that performs the drain - and must be complete once the actor is Stopped)
+X = {"k": "X"}   # mode kids: stop one child of the target (a supervision event for the target); not in the model
 Dc, Dt, Dw = {"k": "D", "v": "c"}, {"k": "D", "v": "t"}, {"k": "D", "v": "w"}
 DRAINS = [D, Dc, Dt, Dw]
 
@@ -38,6 +39,8 @@ def coq_bool(b):
 def coq_call(c):
     if c["k"] == "D":
         return "CDrain"
+    if c["k"] == "X":
+        raise ValueError("X has no model counterpart")
     if c["k"] == "T":
         return "CStop"
     if c["k"] == "K":
@@ -47,7 +50,7 @@ def coq_call(c):
         # n (remote mode: message type without wire format) = the default box_message refuses = boxok false;
         # digits / s / c / q select the entry point and do not exist in the model (one kind of send frame)
         c["pid"], coq_bool("w" in f), coq_bool("b" not in f and "n" not in f), coq_bool("g" in f), coq_bool("f" in f),
-        "; ".join(coq_call(x) for x in c["box"]), "; ".join(coq_call(x) for x in c["h"]))
+        "; ".join(coq_call(x) for x in c["box"] if x["k"] != "X"), "; ".join(coq_call(x) for x in c["h"] if x["k"] != "X"))
 
 
 def rust_line(acts):
@@ -57,7 +60,7 @@ def rust_line(acts):
             out.append(f"{a[0]} {rust_call(a[1])}")
         elif a[0] in ("rel", "ps", "mode"):
             out.append(f"{a[0]} {a[1]}")
-        elif a[0] in ("go", "tick"):
+        elif a[0] in ("go", "tick", "wait"):
             out.append(a[0])
         else:
             out.append("run")
@@ -73,7 +76,7 @@ def coq_exec(acts):
 def coq_acts(acts):
     out = []
     for a in acts:
-        if a[0] in ("ps", "mode", "go"):
+        if a[0] in ("ps", "mode", "go", "wait") or (a[0] == "do" and a[1]["k"] == "X"):
             continue
         if a[0] == "do":
             out.append(f"ADo {coq_call(a[1])}")
@@ -96,7 +99,7 @@ def calls_in(c):
 def scenario_stats(acts):
     st = {"sends": 0, "drains": 0, "stops": 0, "kills": 0, "gated": 0, "nested": 0, "runs": 0}
     for a in acts:
-        if a[0] in ("ps", "mode", "go"):
+        if a[0] in ("ps", "mode", "go", "wait"):
             continue
         if a[0] in ("do", "start"):
             for c in calls_in(a[1]):
@@ -108,7 +111,7 @@ def scenario_stats(acts):
                     st["drains"] += 1
                 elif c["k"] == "T":
                     st["stops"] += 1
-                else:
+                elif c["k"] == "K":
                     st["kills"] += 1
             if a[0] == "start":
                 st["gated"] += 1
@@ -365,6 +368,43 @@ def instant_scenarios(rng=None, n_random=0):
     return out
 
 
+def after_exit_scenarios():
+    """drain (every public form) issued on a reference held after the actor has exited - by drain, stop, kill,
+    handler failure - or while it is Stopping (a sender released by post_stop drains from box_message); then waits.
+    The status must stay Stopped and every wait must return (check_status / kept waits)"""
+    out = []
+    causes = {"drain": [("do", D)], "stop": [("do", T)], "kill": [("do", K)], "fail": [("do", S(50, "f"))],
+              "self": [("do", S(50, "", [], [D]))]}
+    for cname, cause in causes.items():
+        for late in DRAINS:
+            for nwait in (0, 2):
+                acts = [("do", S(1))] + cause + [("run",), ("do", late)] + [("wait",)] * nwait
+                acts += [("do", late), ("run",), ("do", Dt), ("wait",), ("tick",), ("do", S(2)), ("run",)]
+                out.append(acts)
+    for late in DRAINS:
+        # drain while Stopping: post_stop releases a parked sender whose box_message drains
+        out.append([("ps", 0), ("do", S(1)), ("start", S(2, "g", [late])), ("do", T), ("run",), ("wait",), ("do", late),
+                    ("wait",), ("run",), ("do", S(3)), ("run",)])
+        out.append([("ps", 0), ("do", S(1)), ("start", S(2, "g", [late])), ("do", D), ("run",), ("rel", 0), ("run",),
+                    ("wait",), ("do", late), ("wait",), ("run",)])
+    return out
+
+
+def long_backlog(n, kids=0, kid_window=(), drain=False, chunk=None):
+    """n messages queued before the actor runs (a standing backlog); optionally the handlers of the messages at the
+    1-based positions kid_window each stop one child of the target (a supervision event arrives while the target
+    works through the backlog); optionally the actor is let run after every `chunk` sends"""
+    acts = [("mode", f"kids {kids}")] if kids else []
+    for k in range(1, n + 1):
+        acts.append(("do", S(k, "", [], [X] if k in kid_window else [])))
+        if chunk and k % chunk == 0:
+            acts.append(("run",))
+    if drain:
+        acts.append(("do", D))
+    acts += [("run",), ("do", S(n + 1)), ("run",)]
+    return acts
+
+
 def remote_exhaustive():
     """all action sequences of length <= 3 over {serializable send, non-serializable send, send whose handler sends
     both kinds, drain, stop, run} against a remote-id target"""
@@ -443,7 +483,7 @@ CORPUS = [
 BAD_TOKENS = ("RChannelClosed", "ROther", "HANG")
 
 
-def run_scenarios(chk, build, scenarios, tag):
+def run_scenarios(chk, build, scenarios, tag, lite=False, only=None):
     """returns list of dicts: acts, line, impl (text), impl_t, model_t, c07, c02, bad"""
     lines = [rust_line(a) for a in scenarios]
     impl = run_harness(build, BIN, lines, shards=min(8, NCPU), timeout=1500)
@@ -460,8 +500,10 @@ def run_scenarios(chk, build, scenarios, tag):
         log = show_term(t[1])
         alive_idle = not any(isinstance(e, tuple) and e[0] == "EExit" for e in t[1])
         r["alive_idle"] = alive_idle
-        exprs.append(f"let s := {coq_exec(acts)} in (check_C07 true {log}, "
-                     f"check_C02 {coq_bool(alive_idle)} {log}, complete s, view s)")
+        c02 = "check_C02_lite" if lite else "check_C02"
+        e07 = f"check_C07 true {log} && check_status {log} {t[2]}" if only in (None, "C07") else "true"
+        e02 = f"{c02} {coq_bool(alive_idle)} {log}" if only in (None, "C02") else "true"
+        exprs.append(f"let s := {coq_exec(acts)} in ({e07}, {e02}, complete s, view s)")
         res.append(r)
     vals = coq_eval(tag, IMPORTS, exprs, scope="nat_scope")
     k = 0
@@ -570,7 +612,7 @@ def run_lines(chk, build, lines, tag):
         alive_idle = line.rstrip().endswith("run") and not any(isinstance(e, tuple) and e[0] == "EExit" for e in t[1])
         r["alive_idle"] = alive_idle
         compl = line.rstrip().endswith("run")
-        exprs.append(f"(check_C07 {coq_bool(compl)} {log}, check_C02 {coq_bool(alive_idle)} {log})")
+        exprs.append(f"(check_C07 {coq_bool(compl)} {log} && check_status {log} {t[2]}, check_C02 {coq_bool(alive_idle)} {log})")
         res.append(r)
     vals = coq_eval(tag + "l", IMPORTS, exprs, scope="nat_scope")
     k = 0
